@@ -107,6 +107,25 @@ def connect_holes_and_structures(
     return matrix
 
 
+def _dilate_until_converged(body_fn, connected: jax.Array) -> jax.Array:
+    """Repeats the masked dilation step until the connected set stops growing.
+
+    A fixed number of max(shape) iterations is not enough for winding structures (serpentines, spirals),
+    whose geodesic length can be of the order of the number of voxels.
+    """
+
+    def _cond_fn(carry):
+        return carry[1]
+
+    def _body_fn(carry):
+        arr = carry[0]
+        new_arr = body_fn(0, arr)
+        return new_arr, jnp.any(new_arr != arr)
+
+    connected, _ = jax.lax.while_loop(_cond_fn, _body_fn, (connected, jnp.asarray(True)))
+    return connected
+
+
 def compute_air_connection(matrix: jax.Array) -> jax.Array:
     """Computes a mask of air regions connected to the boundaries.
 
@@ -121,7 +140,6 @@ def compute_air_connection(matrix: jax.Array) -> jax.Array:
         jax.Array: Boolean array marking air regions connected to boundaries.
     """
     inv_matrix = jnp.invert(matrix)
-    n = max([matrix.shape[0], matrix.shape[1], matrix.shape[2]])
     n4_kernel = jnp.asarray(
         [
             [0, 1, 0],
@@ -148,7 +166,7 @@ def compute_air_connection(matrix: jax.Array) -> jax.Array:
         )
         return arr
 
-    connected = jax.lax.fori_loop(0, n, _body_fn, connected)
+    connected = _dilate_until_converged(_body_fn, connected)
 
     return connected
 
@@ -172,7 +190,6 @@ def compute_polymer_connection(
     Returns:
         jax.Array: Boolean array marking connected polymer regions.
     """
-    n = max([matrix.shape[0], matrix.shape[1], matrix.shape[2]])
     padded = False
     if matrix.shape[2] == 1:
         padded = True
@@ -201,7 +218,7 @@ def compute_polymer_connection(
         )
         return arr
 
-    connected = jax.lax.fori_loop(0, n, _body_fn, connected)
+    connected = _dilate_until_converged(_body_fn, connected)
 
     if padded:
         connected = connected[..., 1:2]
